@@ -57,6 +57,32 @@ def double_executions(events) -> list[str]:
     return sorted(res)
 
 
+def redefined_in_flight(events) -> list[str]:
+    """Steps that were defined again (accepted define_step) while a job of theirs was in flight (F25)."""
+    inflight: dict[str, int] = {}
+    completing: set[str] = set()
+    res = set()
+    for e in events:
+        if e["ev"] == "proc_start":
+            inflight = {}
+            completing = set()
+        elif e["ev"] == "pop" and e.get("step") not in (None, "NULL"):
+            inflight[e["step"]] = inflight.get(e["step"], 0) + 1
+        elif e["ev"] == "cmd_end":
+            # the job stays in flight until its completion is committed (hashing happens in between)
+            completing.add(e["step"])
+        elif e["ev"] == "commit" and e.get("fn") == "execute_job" and not e.get("same", False) and completing:
+            for st in list(completing):
+                inflight[st] = 0
+            completing.clear()
+        elif e["ev"] == "rpc_end" and e.get("name") == "define_step" and e.get("outcome") == "ok" and e.get("args"):
+            a = e["args"]
+            label = a[0] if a[5] == "." else f"{a[0]}  # wd={a[5]}"
+            if inflight.get(label, 0) > 0:
+                res.add("step:" + label)
+    return sorted(res)
+
+
 def run_history(project: dict, phases: list[dict], *, world: World | None = None, keep_world=False,
                 commit_hooks=None, gate_hooks=None, report_hooks=None, watch_hooks=None, log_state=True,
                 policy="random") -> dict:
@@ -104,7 +130,7 @@ def run_history(project: dict, phases: list[dict], *, world: World | None = None
                     "nphases": len(group),
                     "watch_points": res.watch_points,
                     "dups": duplicate_definitions(res.trace),
-                    "double_exec": double_executions(res.trace),
+                    "double_exec": sorted(set(double_executions(res.trace)) | set(redefined_in_flight(res.trace))),
                 }
             )
             if res.exc or res.hang:
